@@ -201,7 +201,15 @@ def judge(ctx, g, case):
                 out = io.StringIO()
                 try:
                     with contextlib.redirect_stderr(io.StringIO()), contextlib.redirect_stdout(out):
-                        ns = parse(ap, argv, hash((cmd, o, "route")) % 4 == 0)
+                        if without_cmd and len(g['real']) > 1 and hash((cmd, o, "ns")) % 2 == 0:
+                            # the caller hands over a namespace of its own - the result of an earlier parse, which
+                            # names another command
+                            import argparse
+                            earlier = argparse.Namespace(command=[c for c in g['real'] if c != cmd][0], left_over=1)
+                            ns = ap.parse_args(list(argv), earlier)
+                            ctx.count("default_command_vectors_parsed_into_a_used_namespace")
+                        else:
+                            ns = parse(ap, argv, hash((cmd, o, "route")) % 4 == 0)
                     ok = True
                     if exits:
                         problems.append(("self-answering-option-does-not-end-the-program", {"argv": argv}))
